@@ -691,6 +691,167 @@ fn run_exhaustive_case(n: usize, idx: u64, ops: &[Op<FreeWord>], maxlen: usize, 
 type P2 = PairAlg<MinAddI64, MaxAddI64>;
 type P3 = PairAlg<SumAddI64, PairAlg<MinAddI64, MaxAddI64>>;
 type P4 = PairAlg<PairAlg<SumAddI32, MinAddI32>, PairAlg<MaxAddI32, PairAlg<SumAddI32, MaxAddI32>>>;
+// ------------------------------------------------------------------------------------------------
+// "sleeper" histories: one query, then exactly W operations of one kind that never query, then the same query again.
+// W sits at and around 2^8 and 2^16 (anything that counts operations in a narrow integer - generation stamps, epochs
+// - wraps there), which no random history of a few dozen operations reaches.
+
+const SLEEPER_W: &[usize] = &[255, 256, 257, 65_535, 65_536, 65_537, 131_072];
+
+fn run_sleeper_case<A: Algebra>(case_seed: u64, judge: Judge, _thorough: bool, rep: &mut Report, verbose: bool) {
+    let mut rng = Rng::new(case_seed);
+    let nonneg = judge == Judge::Search && A::search_needs_nonneg();
+    let w = SLEEPER_W[(case_seed % SLEEPER_W.len() as u64) as usize];
+    let n = (*rng.pick(&[2usize, 3, 5, 8, 13, 16, 17, 33])).min(A::max_n());
+    let first = gen_construct::<A>(&mut rng, n, nonneg);
+    let mut cx = Ctx {
+        judge,
+        rep,
+        replay: vec!["--mode".into(), "sleeper".into(), "--case".into(), format!("{}:{}", A::name(), case_seed)],
+        verbose,
+        algebra: A::name(),
+    };
+    cx.rep.inc("evaluations");
+    cx.rep.inc("sleeper_histories");
+    cx.rep.see("sleeper_gaps", w as u64);
+    let r = catch(|| {
+        let (tree, shadow) = construct::<A>(&first);
+        let mut live: Live<A> = Live { tree, shadow, log: vec![format!("{:?}", first)], prev_kind: op_kind(&first) };
+        for _ in 0..rng.usize_below(4) {
+            let op = gen_op::<A>(&mut rng, &live, judge, nonneg, &[n]);
+            if matches!(op, Op::New(..) | Op::FromSlice(..) | Op::FromIter(..) | Op::RecycleNew(..)) {
+                continue;
+            }
+            live.step(&op, &mut cx);
+        }
+        // the query that is repeated
+        let pos = if n > 1 && rng.chance(3, 4) { rng.range_usize(1, n - 1) } else { rng.usize_below(n) };
+        let probe: Op<A> = match judge {
+            Judge::Fold => {
+                let (l, r) = gen_range(&mut rng, n);
+                Op::Ask(l, r)
+            }
+            Judge::Search => {
+                let p = A::gen_pred(&mut rng, &live.shadow);
+                if rng.chance(1, 2) {
+                    Op::Lb(pos, p)
+                } else {
+                    Op::LbRev(pos, p)
+                }
+            }
+        };
+        live.step(&probe, &mut cx);
+        // exactly w operations of one kind; the log keeps a summary only
+        let kind = rng.below(3);
+        let full_at = rng.usize_below(w);
+        let log_len = live.log.len();
+        for i in 0..w {
+            let op: Op<A> = if kind == 0 || (kind == 2 && i % 2 == 0) || !A::has_mod() && false {
+                if A::has_mod() {
+                    let (l, r) = if i == full_at { (0, n - 1) } else { gen_range(&mut rng, n) };
+                    Op::Modify(l, r, A::gen_mod(&mut rng, nonneg))
+                } else {
+                    let j = rng.usize_below(n);
+                    let mut e = A::gen_elem(&mut rng, nonneg);
+                    A::at(&mut e, j);
+                    Op::Set(j, e)
+                }
+            } else {
+                let j = rng.usize_below(n);
+                let mut e = A::gen_elem(&mut rng, nonneg);
+                A::at(&mut e, j);
+                Op::Set(j, e)
+            };
+            live.step(&op, &mut cx);
+            live.log.truncate(log_len);
+        }
+        live.log.push(format!("... {} operations without a query ({}) ...", w, ["modify only", "set only", "modify and set alternating"][kind as usize]));
+        live.step(&probe, &mut cx);
+        live.final_probe(&mut rng, &mut cx);
+        cx.rep.see("nontrivial", mix(&[case_seed, common::hash_str(&A::name()), 0x51ee]));
+    });
+    if let Err(p) = r {
+        if p.in_lib {
+            cx.violation("panic", Json::obj().set("what", "the library panicked on a lawful operation").set("panic", p.msg.as_str()).set("at", format!("{}:{}", p.file, p.line)));
+        } else {
+            cx.rep.inconclusive(format!("harness panic at {}:{}: {}", p.file, p.line, p.msg));
+        }
+    }
+}
+
+// ------------------------------------------------------------------------------------------------
+// very large trees (built-in sums, cheap elements): sizes just above large powers of two, operations biased to the two
+// ends of the array; the plain-array oracle is linear per operation, so only a handful of operations per tree
+
+fn huge_sizes(thorough: bool) -> Vec<usize> {
+    let mut v = vec![(1 << 20) + 1, 1 << 21, (1 << 21) + 1, 3 << 20, (1 << 22) - 1, 1 << 22, (1 << 22) + 1, (1 << 22) + 2, (1 << 23) + 1, (1 << 23) + 5];
+    if thorough {
+        v.extend([(1 << 24) + 1, (1 << 24) + 7, (1 << 25) + 1]);
+    }
+    v
+}
+
+fn run_huge_case<A: Algebra>(case_seed: u64, judge: Judge, n: usize, rep: &mut Report, verbose: bool) {
+    let mut rng = Rng::new(case_seed);
+    let nonneg = judge == Judge::Search && A::search_needs_nonneg();
+    let first = gen_construct::<A>(&mut rng, n, nonneg);
+    let mut cx = Ctx {
+        judge,
+        rep,
+        replay: vec!["--mode".into(), "huge".into(), "--case".into(), format!("{}:{}:{}", A::name(), n, case_seed)],
+        verbose,
+        algebra: A::name(),
+    };
+    cx.rep.inc("evaluations");
+    cx.rep.inc("huge_histories");
+    cx.rep.see("sizes", n as u64);
+    cx.rep.max("max_n", n as i64);
+    let r = catch(|| {
+        let (tree, shadow) = construct::<A>(&first);
+        let mut live: Live<A> = Live { tree, shadow, log: vec![format!("{} of {} elements", op_kind(&first), n)], prev_kind: op_kind(&first) };
+        let edge = |rng: &mut Rng| -> usize {
+            match rng.below(8) {
+                0 => 0,
+                1 => 1,
+                2 => n - 1,
+                3 => n - 2,
+                4 => n - 3,
+                5 => n / 2,
+                _ => rng.usize_below(n),
+            }
+        };
+        for _ in 0..14 {
+            let op: Op<A> = match rng.below(if judge == Judge::Fold { 3 } else { 5 }) {
+                0 => {
+                    let j = edge(&mut rng);
+                    let mut e = A::gen_elem(&mut rng, nonneg);
+                    A::at(&mut e, j);
+                    Op::Set(j, e)
+                }
+                1 if A::has_mod() => {
+                    let (a, b) = (edge(&mut rng), edge(&mut rng));
+                    Op::Modify(a.min(b), a.max(b), A::gen_mod(&mut rng, nonneg))
+                }
+                1 | 2 => {
+                    let (a, b) = (edge(&mut rng), edge(&mut rng));
+                    Op::Ask(a.min(b), a.max(b))
+                }
+                3 => Op::Lb(edge(&mut rng), A::gen_pred(&mut rng, &live.shadow)),
+                _ => Op::LbRev(edge(&mut rng), A::gen_pred(&mut rng, &live.shadow)),
+            };
+            live.step(&op, &mut cx);
+        }
+        cx.rep.see("nontrivial", mix(&[case_seed, n as u64, 0x4e6e]));
+    });
+    if let Err(p) = r {
+        if p.in_lib {
+            cx.violation("panic", Json::obj().set("what", "the library panicked on a lawful operation").set("n", n).set("panic", p.msg.as_str()).set("at", format!("{}:{}", p.file, p.line)));
+        } else {
+            cx.rep.inconclusive(format!("harness panic at {}:{}: {}", p.file, p.line, p.msg));
+        }
+    }
+}
+
 type PW = PairAlg<FreeWord, LetterCount>;
 type PV = PairAlg<LetterCount, FreeWord>;
 type PH = PairAlg<HashWord, PairAlg<LetterCount, HashWord>>;
@@ -718,6 +879,7 @@ macro_rules! for_each_algebra {
         $mac!(MinAddI8Sent, 1);
         $mac!(MaxAddI8Sent, 1);
         $mac!(ProgAdd, 4);
+        $mac!(FlipCount, 3);
         $mac!(P2, 2);
         $mac!(P3, 2);
         $mac!(P4, 2);
@@ -845,6 +1007,86 @@ fn main() {
         }
         report.extra("exhaustive", true);
         report.extra("scopes", Json::Arr(scopes));
+    } else if mode == "sleeper" {
+        type Runner = fn(u64, Judge, bool, &mut Report, bool);
+        let mut table: Vec<(String, u32, Runner)> = Vec::new();
+        macro_rules! regs {
+            ($a:ty, $w:expr) => {
+                table.push((<$a as Algebra>::name(), $w, run_sleeper_case::<$a> as Runner));
+            };
+        }
+        for_each_algebra!(regs);
+        // 8-bit element types cannot absorb 10^5 additions without leaving their range (the caller's overflow, not the tree's)
+        table.retain(|t| !t.0.contains("i8"));
+        if let Some(case) = a.opt("case") {
+            let (name, cs) = case.rsplit_once(':').expect("case = algebra:seed");
+            let cs: u64 = cs.parse().expect("seed");
+            let f = table.iter().find(|t| t.0 == name).expect("unknown algebra").2;
+            let rep = common::run_big_stack(|| {
+                let mut rep = Report::new();
+                f(cs, judge, thorough, &mut rep, true);
+                rep
+            });
+            report.merge(rep);
+            eng.finish(report);
+        }
+        // every algebra x every gap (case_seed % gaps selects the gap) x repetitions
+        let reps = a.u64("reps", if thorough { 12 } else { 2 });
+        let gaps = SLEEPER_W.len() as u64;
+        let total = table.len() as u64 * gaps * reps;
+        let q = WorkQueue::new(total);
+        let table = &table;
+        let rep = common::run_sharded(a.threads(), |_shard, rep| {
+            rep.sample_cap = 0;
+            while let Some(idx) = q.take() {
+                // largest gaps first
+                let idx = total - 1 - idx;
+                let ai = (idx / (gaps * reps)) as usize;
+                let g = (idx / reps) % gaps;
+                let k = idx % reps;
+                let base = mix(&[seed, judge as u64, ai as u64, k, 0x51]);
+                let case_seed = base - base % gaps + g;
+                (table[ai].2)(case_seed, judge, thorough, rep, false);
+            }
+        });
+        report.merge(rep);
+        report.extra("exhaustive", false);
+        report.extra("gaps", Json::from(SLEEPER_W.to_vec()));
+    } else if mode == "huge" {
+        type HRunner = fn(u64, Judge, usize, &mut Report, bool);
+        let table: Vec<(String, HRunner)> = vec![
+            (<SumAddI64 as Algebra>::name(), run_huge_case::<SumAddI64> as HRunner),
+            (<SumI64 as Algebra>::name(), run_huge_case::<SumI64> as HRunner),
+            (<MinAddI32 as Algebra>::name(), run_huge_case::<MinAddI32> as HRunner),
+            (<FlipCount as Algebra>::name(), run_huge_case::<FlipCount> as HRunner),
+        ];
+        if let Some(case) = a.opt("case") {
+            let parts: Vec<&str> = case.split(':').collect();
+            let (name, n, cs): (&str, usize, u64) = (parts[0], parts[1].parse().unwrap(), parts[2].parse().unwrap());
+            let f = table.iter().find(|t| t.0 == name).expect("unknown algebra").1;
+            let rep = common::run_big_stack(move || {
+                let mut rep = Report::new();
+                f(cs, judge, n, &mut rep, true);
+                rep
+            });
+            report.merge(rep);
+            eng.finish(report);
+        }
+        let sizes = huge_sizes(thorough);
+        let tasks: Vec<(usize, usize, u64)> = (0..table.len()).flat_map(|ai| sizes.iter().map(move |&n| (ai, n))).flat_map(|(ai, n)| (0..2u64).map(move |k| (ai, n, k))).collect();
+        let q = WorkQueue::new(tasks.len() as u64);
+        let (table, tasks) = (&table, &tasks);
+        // at most 8 trees at a time (memory)
+        let rep = common::run_sharded(a.threads().min(8), |_shard, rep| {
+            rep.sample_cap = 0;
+            while let Some(i) = q.take() {
+                let (ai, n, k) = tasks[tasks.len() - 1 - i as usize];
+                (table[ai].1)(mix(&[seed, judge as u64, ai as u64, n as u64, k]), judge, n, rep, false);
+            }
+        });
+        report.merge(rep);
+        report.extra("exhaustive", false);
+        report.extra("sizes_run", Json::from(sizes));
     } else {
         panic!("unknown mode {}", mode);
     }
